@@ -16,6 +16,7 @@
 package main
 
 import (
+	"bytes"
 	"crypto/aes"
 	"crypto/cipher"
 	"database/sql/driver"
@@ -161,6 +162,24 @@ func uintCodec[T uint8 | uint16 | uint32 | uint64 | uint]() codec[T] {
 			return T(v)
 		},
 		render: func(v T) string { return strconv.FormatUint(uint64(v), 10) },
+	}
+}
+
+// interferingScans: a few Value/Scan round trips of unrelated columns with the same key on this goroutine
+func interferingScans(key []byte) {
+	for i := 0; i < 3; i++ {
+		a := sqlx.EncryptColumn[[]byte]{Key: string(key), Valid: true, Val: bytes.Repeat([]byte{byte(0x51 + i)}, 24+17*i)}
+		if v, err := a.Value(); err == nil {
+			var b sqlx.EncryptColumn[[]byte]
+			b.Key = string(key)
+			_ = b.Scan(v)
+		}
+		c := sqlx.EncryptColumn[string]{Key: string(key), Valid: true, Val: strings.Repeat("q", 40+i)}
+		if v, err := c.Value(); err == nil {
+			var d sqlx.EncryptColumn[string]
+			d.Key = string(key)
+			_ = d.Scan(v)
+		}
 	}
 }
 
@@ -680,6 +699,16 @@ func run(ops []string, out *vlib.Out, st *stats) {
 					}
 				}
 				st.Rescans++
+			}
+			// … nor when OTHER columns are scanned afterwards (a scratch buffer handed out as the value and reused)
+			if res == "ok" && kind == "enc" {
+				tok3 := col.ValTok()
+				vlib.Catch(func() { interferingScans(col.Key()) })
+				if col.ValTok() != tok3 {
+					alias = "1"
+				} else if alias == "na" {
+					alias = "0"
+				}
 			}
 			res += fmt.Sprintf(" src=%s srcty=%s open=%s dec=%s again=%s alias=%s", srchex, srcty, open, dec, again, alias)
 		default:
